@@ -165,10 +165,76 @@ def drop_sandbox_root():
 
 
 # --------------------------------------------------------------------------
+# line coverage of REPO/darr in sampled runs (sys.monitoring; reach, not a verdict)
+# --------------------------------------------------------------------------
+
+COV_SAMPLE = 96        # the first runs of every batch are measured
+
+
+def _cov_start():
+    mon = sys.monitoring
+    hits = set()
+    prefix = os.path.join(os.path.realpath(REPO), 'darr') + os.sep
+    skip = os.path.join(prefix, 'tests') + os.sep
+
+    def on_line(code, line):
+        fn = code.co_filename
+        if fn.startswith(prefix) and not fn.startswith(skip) and not fn.endswith('_version.py'):
+            hits.add((fn[len(prefix):], line))
+        return mon.DISABLE
+    try:
+        mon.use_tool_id(mon.COVERAGE_ID, 'dsim-cov')
+        mon.register_callback(mon.COVERAGE_ID, mon.events.LINE, on_line)
+        mon.set_events(mon.COVERAGE_ID, mon.events.LINE)
+    except Exception:
+        return None
+    return hits
+
+
+def _cov_stop():
+    mon = sys.monitoring
+    try:
+        mon.set_events(mon.COVERAGE_ID, 0)
+        mon.free_tool_id(mon.COVERAGE_ID)
+    except Exception:
+        pass
+
+
+def executable_lines():
+    """{relative file: set of line numbers that carry code} for REPO/darr (tests excluded)"""
+    root = os.path.join(os.path.realpath(REPO), 'darr')
+    out = {}
+    for fn in sorted(os.listdir(root)):
+        if not fn.endswith('.py') or fn == '_version.py':
+            continue
+        p = os.path.join(root, fn)
+        try:
+            with open(p, encoding='utf-8') as f:
+                code = compile(f.read(), p, 'exec')
+        except Exception:
+            continue
+        lines = set()
+        stack = [code]
+        while stack:
+            c = stack.pop()
+            if c.co_flags & 0x1:          # function bodies only: module and class bodies run at import, before measuring
+                first = True
+                for _, _, ln in c.co_lines():
+                    if ln and not (first and ln == c.co_firstlineno):
+                        lines.add(ln)
+                    first = False
+            for k in c.co_consts:
+                if hasattr(k, 'co_lines'):
+                    stack.append(k)
+        out[fn] = lines
+    return out
+
+
+# --------------------------------------------------------------------------
 # executing one scenario
 # --------------------------------------------------------------------------
 
-def execute_scenario(engine, scenario, tag, timeout=None):
+def execute_scenario(engine, scenario, tag, timeout=None, cov=False):
     """Run one scenario of `engine` in a forked child inside a fresh sandbox.
 
     Returns a run record:
@@ -180,7 +246,13 @@ def execute_scenario(engine, scenario, tag, timeout=None):
     timeout = timeout or getattr(engine, 'run_timeout', 60.0)
 
     def body(arg, emit):
-        return engine.run(scenario, sb, emit)
+        hits = _cov_start() if cov else None
+        res = engine.run(scenario, sb, emit)
+        if hits is not None:
+            _cov_stop()
+            if isinstance(res, dict):
+                res.setdefault('stats', {})['cov'] = sorted(f'{f}:{l}' for f, l in hits)
+        return res
     try:
         res = run_child(body, None, timeout=timeout)
     finally:
@@ -354,12 +426,13 @@ def _worker_batch(args):
             out.append(dict(i=i, verdict='harness_error', detail='gen: ' + traceback.format_exc(),
                             scenario=None, violation=None, stats={}, digest=None))
             continue
-        rec = execute_scenario(engine, scenario, f'w{os.getpid()}-r{i}')
+        rec = execute_scenario(engine, scenario, f'w{os.getpid()}-r{i}', cov=(i % 997) < COV_SAMPLE // 8 or i < COV_SAMPLE)
         keep = rec['verdict'] != 'held'
         out.append(dict(i=i, verdict=rec['verdict'], violation=rec['violation'],
                         detail=rec['detail'], stats=rec['stats'], digest=rec['digest'],
                         scenario=scenario if keep or i < 3 else None,
                         nontrivial=engine.nontrivial(scenario, rec['stats']),
+                        enumerated=bool(scenario.get('enumerated')),
                         sdig=hashlib.sha256(canon(scenario).encode()).hexdigest()[:16]))
     return out
 
@@ -413,6 +486,16 @@ class Union(Engine):
         return self.subs[scenario['sub']][1]
 
     def gen(self, rng, i, tier):
+        # bounded-exhaustive parts of the sub-engines come first, one after the other
+        if tier == 'thorough':
+            off = 0
+            for k, (_, e) in enumerate(self.subs):
+                n = e.enum_total() if hasattr(e, 'enum_total') else 0
+                if i < off + n:
+                    sc = e.gen(rng, i - off, tier)
+                    sc['sub'] = k
+                    return sc
+                off += n
         k = rng.choices(range(len(self.subs)), [w for w, _ in self.subs])[0]
         sc = self.subs[k][1].gen(rng, i, tier)
         sc['sub'] = k
